@@ -471,7 +471,7 @@ theorem safe_replaceFile (orig : Tree) (hs : List Hunk) (f : Path) (fs : List Pa
     Safe (Whole orig hs) (Keep orig hs (f :: fs)) (replaceFile f c' m) (fun _ t => Keep orig hs fs t) := by
   have hW : ∀ t, Keep orig hs (f :: fs) t → Whole orig hs t := fun _ h => h.1
   have htf : (tmpPath f) ≠ f := fun h => hx2 f (List.mem_cons_self) h.symm
-  unfold replaceFile
+  unfold replaceFile replaceFileX
   -- open(O_TRUNC) of the temp file
   refine safe_bind (Q := fun _ t => Keep orig hs (f :: fs) t ∧ ∃ mt, lookup t (tmpPath f) = some (.file [] mt))
     (safe_doOp _ hW ?_ ?_) (fun _ => ?_)
@@ -543,7 +543,7 @@ theorem safe_replaceFileF (clean : Bool) (orig : Tree) (hs : List Hunk) (f : Pat
     (happ : Edits.applyEdits c (editsFor hs f) = .ok c') :
     Safe (Whole orig hs) (Keep orig hs (f :: fs)) (replaceFileF clean f c' m) (fun _ t => Keep orig hs fs t) := by
   have h := safe_replaceFile orig hs f fs c c' m hfo hnd hx1 hx2 happ
-  unfold replaceFileF
+  unfold replaceFileF replaceFileFX
   cases clean with
   | false => exact h
   | true =>
@@ -859,7 +859,7 @@ theorem safe0_replaceFile (f : Path) (c c' : Bytes) (m : Nat) (t0 : Tree)
   have hnk := no_key_of_lookup_none hfresh
   have htf : tmpPath f ≠ f := by
     intro h; rw [h] at hfresh; rw [hfresh] at hl; cases hl
-  unfold replaceFile
+  unfold replaceFile replaceFileX
   refine safe0_bind (Q := fun _ t => t = t0 ++ [(tmpPath f, .file [] 0o644)]) (safe0_doOp _ ?_) (fun _ => ?_)
   · intro t t' ht he
     subst ht
@@ -906,7 +906,7 @@ theorem safe0_replaceFileF (clean : Bool) (f : Path) (c c' : Bytes) (m : Nat) (t
     (hn : NodupKeys t0) (hl : lookup t0 f = some (.file c m)) (hfresh : lookup t0 (tmpPath f) = none) :
     Safe0 (fun t => t = t0) (replaceFileF clean f c' m) (fun _ t => t = setContent t0 f c') := by
   have h := safe0_replaceFile f c c' m t0 hn hl hfresh
-  unfold replaceFileF
+  unfold replaceFileF replaceFileFX
   cases clean with
   | false => exact h
   | true =>
@@ -1566,13 +1566,13 @@ theorem reports_writeAll (k : Nat) (p : Path) (c : Bytes) : Reports k (writeAll 
   · simp only [hc, Bool.false_eq_true, if_false]; exact reports_doOp k _
 
 theorem reports_replaceFile (k : Nat) (f : Path) (c' : Bytes) (m : Nat) : Reports k (replaceFile f c' m) := by
-  unfold replaceFile
+  unfold replaceFile replaceFileX
   exact reports_bind (reports_doOp k _) (fun _ => reports_bind (reports_writeAll k _ _) (fun _ =>
     reports_bind (reports_doOp k _) (fun _ => reports_doOp k _)))
 
 theorem reports_replaceFileF (k : Nat) (clean : Bool) (f : Path) (c' : Bytes) (m : Nat) :
     Reports k (replaceFileF clean f c' m) := by
-  unfold replaceFileF
+  unfold replaceFileF replaceFileFX
   cases clean with
   | false => exact reports_replaceFile k f c' m
   | true =>
@@ -1721,7 +1721,7 @@ theorem np_ignoreErr {x : M Unit} (hx : NoPanic x) : NoPanic (ignoreErr x) := by
   exact np_bind (np_tryCatch hx) (fun _ => np_pure ())
 
 theorem np_replaceFile (f : Path) (c' : Bytes) (m : Nat) : NoPanic (replaceFile f c' m) := by
-  unfold replaceFile
+  unfold replaceFile replaceFileX
   exact np_bind (np_doOp _) (fun _ => np_bind (np_writeAll _ _) (fun _ => np_bind (np_doOp _) (fun _ => np_doOp _)))
 
 theorem np_tryCatch_bind {β : Type} {x : M Unit} {k : Option Fail → M β} (hx : NoPanic x) (hnone : NoPanic (k none))
@@ -1757,7 +1757,7 @@ theorem np_tryOp (op : Op) : NoPanic (tryOp op) := by
     | _ => cases h
 
 theorem np_replaceFileF (clean : Bool) (f : Path) (c' : Bytes) (m : Nat) : NoPanic (replaceFileF clean f c' m) := by
-  unfold replaceFileF
+  unfold replaceFileF replaceFileFX
   cases clean with
   | false => exact np_replaceFile f c' m
   | true =>
